@@ -8,19 +8,44 @@ open EPV.Seq.Spec
 
 /-! ### kinds -/
 
-theorem kind_num_iff (a : Atom) : (kind a == Kind.num) = (!a.isBool && !a.isStr) := by
-  cases a <;> simp [kind, Atom.isBool, Atom.isStr]
+theorem outside_eq (s : Seq) : s.any (fun a => a.isNode || a.isUntyped) = outsideAgg s := by
+  unfold outsideAgg; congr 1; funext a; cases a <;> rfl
 
-theorem allKind_num (s : Seq) : allKind .num s = (!s.any Atom.isBool && !s.any Atom.isStr) := by
+theorem kind_num_of (a : Atom) (h : (a.isNode || a.isUntyped) = false) :
+    (kind a == Kind.num) = (!a.isBool && !a.isStr) := by
+  cases a <;> simp_all [kind, Atom.isBool, Atom.isStr, Atom.isNode, Atom.isUntyped]
+
+theorem kind_str_of (a : Atom) (h : (a.isNode || a.isUntyped) = false) :
+    (kind a == Kind.str) = a.isStr := by
+  cases a <;> simp_all [kind, Atom.isStr, Atom.isNode, Atom.isUntyped]
+
+theorem outside_mem (s : Seq) (h : outsideAgg s = false) : ∀ x ∈ s, (x.isNode || x.isUntyped) = false := by
+  rw [← outside_eq] at h
+  exact fun x hx => List.any_eq_false.mp h x hx |> fun h' => by simpa using h'
+
+theorem allKind_num (s : Seq) (h : outsideAgg s = false) :
+    allKind .num s = (!s.any Atom.isBool && !s.any Atom.isStr) := by
+  have hm := outside_mem s h
+  clear h
   induction s with
   | nil => rfl
   | cons a s ih =>
-    simp only [allKind, List.all_cons, List.any_cons] at *
-    rw [ih, kind_num_iff]
-    cases a.isBool <;> cases a.isStr <;> (try simp)
+    have ha := hm a List.mem_cons_self
+    have hs := ih (fun x hx => hm x (List.mem_cons_of_mem _ hx))
+    unfold allKind at hs ⊢
+    rw [List.all_cons, List.any_cons, List.any_cons, hs, kind_num_of a ha]
+    cases a.isBool <;> cases a.isStr <;> cases s.any Atom.isBool <;> cases s.any Atom.isStr <;> first | rfl | done
 
-theorem allKind_str (s : Seq) : allKind .str s = s.all Atom.isStr := by
-  unfold allKind; congr 1; funext a; cases a <;> simp [kind, Atom.isStr]
+theorem allKind_str (s : Seq) (h : outsideAgg s = false) : allKind .str s = s.all Atom.isStr := by
+  have hm := outside_mem s h
+  clear h
+  induction s with
+  | nil => rfl
+  | cons a s ih =>
+    have ha := hm a List.mem_cons_self
+    have hs := ih (fun x hx => hm x (List.mem_cons_of_mem _ hx))
+    unfold allKind at hs ⊢
+    rw [List.all_cons, List.all_cons, hs, kind_str_of a ha]
 
 theorem allKind_bool (s : Seq) : allKind .bool s = s.all Atom.isBool := by
   unfold allKind; congr 1; funext a; cases a <;> simp [kind, Atom.isBool]
@@ -28,56 +53,121 @@ theorem allKind_bool (s : Seq) : allKind .bool s = s.all Atom.isBool := by
 theorem allInt_eq (s : Seq) : allInt s = s.all Atom.isInt := by
   unfold allInt; congr 1
 
-/-! ### sums -/
+theorem anyDouble_eq (s : Seq) : anyDouble s = s.any Atom.isDbl := by
+  unfold anyDouble; congr 1
 
-theorem foldl_add_int (l : List Int) (acc : Int) : l.foldl (· + ·) acc = acc + l.sum := by
-  induction l generalizing acc with
-  | nil => simp
-  | cons x xs ih => simp [List.foldl, ih]; omega
+theorem any_nan_eq (l : Seq) : l.any Atom.isNaN = l.any (· == Atom.dbl .nan) := by
+  congr 1; funext a
+  cases a with
+  | dbl d => cases d <;> simp [Atom.isNaN]
+  | _ => simp [Atom.isNaN]
 
-theorem sumInts_eq (s : Seq) (h : s.all Atom.isInt = true) :
-    sumInts (s.filterMap Atom.int?) = (s.map fun a => match a with | .int n => n | _ => 0).sum := by
-  unfold sumInts
-  rw [foldl_add_int]
-  simp only [Int.zero_add]
-  congr 1
-  induction s with
+theorem is_dbl_of (a : Atom) (h1 : (a.isNode || a.isUntyped) = false) (h2 : a.isBool = false)
+    (h3 : a.isStr = false) (h4 : (a.isInt || a.isDec) = false) : a.isDbl = true := by
+  cases a <;> simp_all [Atom.isBool, Atom.isStr, Atom.isInt, Atom.isDec, Atom.isDbl, Atom.isNode, Atom.isUntyped]
+
+/-- no boolean, no string, nothing outside: not all integer / decimal means some double -/
+theorem has_double (s : Seq) (ho : outsideAgg s = false) (hb : s.any Atom.isBool = false)
+    (hs : s.any Atom.isStr = false) (hd : s.all (fun a => a.isInt || a.isDec) = false) :
+    s.any Atom.isDbl = true := by
+  obtain ⟨x, hx, hxd⟩ := List.all_eq_false.mp hd
+  refine List.any_eq_true.mpr ⟨x, hx, ?_⟩
+  exact is_dbl_of x (outside_mem s ho x hx) (List.any_eq_false.mp hb x hx |> fun h => by simpa using h)
+    (List.any_eq_false.mp hs x hx |> fun h => by simpa using h) (by simpa using hxd)
+
+theorem intdec_point (x : Atom) (h : (x.isInt || x.isDec) = true) :
+    x.isBool = false ∧ x.isStr = false ∧ (x.isNode || x.isUntyped) = false ∧ x.isDbl = false := by
+  cases x <;> simp_all [Atom.isInt, Atom.isDec, Atom.isBool, Atom.isStr, Atom.isNode, Atom.isUntyped, Atom.isDbl]
+
+theorem no_double (s : Seq) (hd : s.all (fun a => a.isInt || a.isDec) = true) : s.any Atom.isDbl = false := by
+  rw [List.any_eq_false]
+  intro x hx
+  have := (intdec_point x (List.all_eq_true.mp hd x hx)).2.2.2
+  simp [this]
+
+theorem intdec_props (s : Seq) (hd : s.all (fun a => a.isInt || a.isDec) = true) :
+    s.any Atom.isBool = false ∧ s.any Atom.isStr = false ∧ outsideAgg s = false := by
+  rw [← outside_eq]
+  refine ⟨?_, ?_, ?_⟩ <;>
+  · rw [List.any_eq_false]
+    intro x hx
+    have := intdec_point x (List.all_eq_true.mp hd x hx)
+    simp [this.1, this.2.1, this.2.2.1]
+
+/-! ### exact sums -/
+
+theorem sumExact_fold (s : Seq) (hd : s.all (fun a => a.isInt || a.isDec) = true) (acc : Int × Nat) :
+    (s.filterMap Atom.decParts?).foldl decAdd acc =
+      s.foldl (fun acc a => match a with
+        | .int n => (acc.1 + n * 10 ^ acc.2, acc.2)
+        | .dec m k => (acc.1 * 10 ^ k + m * 10 ^ acc.2, acc.2 + k)
+        | _ => acc) acc := by
+  induction s generalizing acc with
   | nil => rfl
   | cons a s ih =>
-    simp only [List.all_cons, Bool.and_eq_true] at h
-    cases a <;> simp_all [Atom.isInt, Atom.int?]
+    simp only [List.all_cons, Bool.and_eq_true] at hd
+    cases a <;> simp_all [Atom.isInt, Atom.isDec, Atom.decParts?, decAdd]
 
-theorem toD_eq_numVal (s : Seq) (hb : s.any Atom.isBool = false) (hs : s.any Atom.isStr = false) :
-    s.filterMap Atom.toD? = s.map numVal := by
+theorem sumExact_eq (s : Seq) (hd : s.all (fun a => a.isInt || a.isDec) = true) :
+    sumExact s = exactSum s := sumExact_fold s hd (0, 0)
+
+theorem exactSum_ints_scale (s : Seq) (hi : s.all Atom.isInt = true) : ∀ acc : Int × Nat, acc.2 = 0 →
+    (s.foldl (fun acc a => match a with
+        | .int n => (acc.1 + n * 10 ^ acc.2, acc.2)
+        | .dec m k => (acc.1 * 10 ^ k + m * 10 ^ acc.2, acc.2 + k)
+        | _ => acc) acc).2 = 0 := by
   induction s with
-  | nil => rfl
+  | nil => intro acc h; exact h
   | cons a s ih =>
-    simp only [List.any_cons, Bool.or_eq_false_iff] at hb hs
-    cases a <;> simp_all [Atom.toD?, numVal, Atom.isBool, Atom.isStr, D.ofInt]
+    intro acc h
+    simp only [List.all_cons, Bool.and_eq_true] at hi
+    cases a <;> simp_all [Atom.isInt]
 
-theorem sumD_eq (l : List D) : sumD l = l.foldl addD (.fin 0 0) := by
-  unfold sumD
-  have : D.add = addD := by funext a b; exact D.add_eq a b
-  rw [this]; rfl
+/-! ### compensated summation and NaN -/
 
-theorem addD_nan_left (b : D) : addD .nan b = .nan := by cases b <;> rfl
-theorem addD_nan_right (a : D) : addD a .nan = .nan := by cases a <;> rfl
+theorem D.add_nan_left (b : D) : D.add .nan b = .nan := by cases b <;> rfl
+theorem D.add_nan_right (a : D) : D.add a .nan = .nan := by cases a <;> rfl
 
-theorem foldl_addD_nan (l : List D) : l.foldl addD .nan = .nan := by
-  induction l with
+theorem neumaierLoop_nan (c : D) (xs : List D) : (neumaierLoop .nan c xs).1 = .nan := by
+  induction xs generalizing c with
   | nil => rfl
-  | cons x xs ih => simp [List.foldl, addD_nan_left, ih]
+  | cons x xs ih => simp only [neumaierLoop, D.add_nan_left]; exact ih _
 
-theorem foldl_addD_has_nan (l : List D) (acc : D) (h : D.nan ∈ l) : l.foldl addD acc = .nan := by
-  induction l generalizing acc with
+theorem neumaierLoop_has_nan (f c : D) (xs : List D) (h : D.nan ∈ xs) : (neumaierLoop f c xs).1 = .nan := by
+  induction xs generalizing f c with
   | nil => cases h
   | cons x xs ih =>
-    simp only [List.foldl]
+    simp only [neumaierLoop]
     rcases List.mem_cons.mp h with h | h
-    · subst h; rw [addD_nan_right, foldl_addD_nan]
-    · exact ih _ h
+    · subst h; rw [D.add_nan_right]; exact neumaierLoop_nan _ _
+    · exact ih _ _ h
 
-theorem any_isNaN_mem (s : Seq) (h : s.any Atom.isNaN = true) : D.nan ∈ s.map numVal := by
+theorem neumaierLoop_c_nan (f : D) (xs : List D) : (neumaierLoop f .nan xs).2 = .nan := by
+  induction xs generalizing f with
+  | nil => rfl
+  | cons x xs ih =>
+    simp only [neumaierLoop, D.add_nan_left]
+    cases D.absGe f x <;> exact ih _
+
+theorem neumaierSum_has_nan (l : List D) (h : D.nan ∈ l) : neumaierSum l = .nan := by
+  cases l with
+  | nil => cases h
+  | cons x xs =>
+    simp only [neumaierSum]
+    have hf : (neumaierLoop x (.fin 0 0) xs).1 = .nan := by
+      rcases List.mem_cons.mp h with h | h
+      · subst h; exact neumaierLoop_nan _ _
+      · exact neumaierLoop_has_nan _ _ _ h
+    generalize hr : neumaierLoop x (.fin 0 0) xs = r at hf
+    obtain ⟨f, c⟩ := r
+    simp only at hf
+    subst hf
+    simp only []
+    split
+    · exact D.add_nan_left _
+    · rfl
+
+theorem any_isNaN_mem (s : Seq) (h : s.any Atom.isNaN = true) : D.nan ∈ s.map toDouble := by
   induction s with
   | nil => simp at h
   | cons a s ih =>
@@ -87,8 +177,13 @@ theorem any_isNaN_mem (s : Seq) (h : s.any Atom.isNaN = true) : D.nan ∈ s.map 
         cases a with
         | dbl d => cases d <;> simp_all [Atom.isNaN]
         | _ => simp [Atom.isNaN] at h
-      subst this; simp [numVal]
+      subst this; simp [toDouble]
     · simp [ih h]
+
+theorem map_toD (s : Seq) : s.map Atom.toD = s.map toDouble := by
+  congr 1
+
+/-! ### sum -/
 
 theorem zero_arg_eq (zero : Option Seq) :
     (match zero with
@@ -108,60 +203,96 @@ theorem zero_arg_eq (zero : Option Seq) :
   | some [_] => rfl
   | some (_ :: _ :: _) => rfl
 
-theorem fnSum_eq (s : Seq) (zero : Option Seq) : fnSum s zero = Spec.fnSum s zero := by
-  cases s with
-  | nil => simp only [fnSum, Spec.fnSum, List.isEmpty_nil, if_true]; exact zero_arg_eq zero
-  | cons a s =>
-    simp only [fnSum, Spec.fnSum, List.isEmpty_cons, Bool.false_eq_true, if_false]
-    rw [allKind_num, allInt_eq]
-    generalize a :: s = l
-    cases hb : l.any Atom.isBool with
-    | true => simp
-    | false =>
-      simp only [Bool.false_eq_true, if_false, Bool.not_false, Bool.true_and]
-      cases hi : l.all Atom.isInt with
-      | true =>
-        have hs : l.any Atom.isStr = false := by
-          rw [List.any_eq_false]; intro x hx
-          have := List.all_eq_true.mp hi x hx
-          cases x <;> simp_all [Atom.isInt, Atom.isStr]
-        simp [hs, sumInts_eq l hi]
-        rfl
-      | false =>
-        simp only [Bool.false_eq_true, if_false]
-        cases hs : l.any Atom.isStr with
-        | true => simp
-        | false =>
-          simp only [Bool.false_eq_true, if_false, Bool.not_false, Bool.not_true]
-          rw [toD_eq_numVal l hb hs, sumD_eq]
-          cases hn : l.any Atom.isNaN with
-          | true => simp [foldl_addD_has_nan _ _ (any_isNaN_mem l hn)]
-          | false => simp
+theorem neumaierSum_single (x : D) : neumaierSum [x] = x := by
+  simp [neumaierSum, neumaierLoop, D.isZero]
 
-theorem fnAvg_eq (s : Seq) : fnAvg s = Spec.fnAvg s := by
-  cases s with
-  | nil => simp [fnAvg, Spec.fnAvg]
-  | cons a s =>
-    simp only [fnAvg, Spec.fnAvg, List.isEmpty_cons, Bool.false_eq_true, if_false]
-    rw [allKind_num, allInt_eq, count_eq_length]
-    generalize a :: s = l
-    cases hb : l.any Atom.isBool with
-    | true => simp
-    | false =>
-      simp only [Bool.false_eq_true, if_false, Bool.not_false, Bool.true_and]
-      cases hi : l.all Atom.isInt with
-      | true =>
-        have hs : l.any Atom.isStr = false := by
-          rw [List.any_eq_false]; intro x hx
-          have := List.all_eq_true.mp hi x hx
-          cases x <;> simp_all [Atom.isInt, Atom.isStr]
-        simp [hs, sumInts_eq l hi]
-        rfl
+theorem fnSum_eq (s : Seq) (zero : Option Seq) : fnSum s zero = Spec.fnSum pySum s zero := by
+  unfold fnSum Spec.fnSum
+  rw [outside_eq]
+  cases ho : outsideAgg s with
+  | true => simp
+  | false =>
+    simp only [Bool.false_eq_true, if_false]
+    match s, ho with
+    | [], _ => simp only [List.isEmpty_nil, if_true]; exact zero_arg_eq zero
+    | [a], ho =>
+      rw [← outside_eq] at ho
+      cases a with
+      | int n => rfl
+      | dec m k => rfl
+      | bool b => rfl
+      | str t => rfl
+      | untyped t => simp [Atom.isNode, Atom.isUntyped] at ho
+      | node i => simp [Atom.isNode, Atom.isUntyped] at ho
+      | dbl d =>
+        cases d <;>
+          simp [Atom.isBool, Atom.isInt, Atom.isDec, Atom.isStr, Atom.isNaN, kind, neumaierSum_single, Atom.toD]
+    | a :: b :: rest, ho =>
+      simp only [List.isEmpty_cons, Bool.false_eq_true, if_false]
+      rw [allKind_num _ ho, allInt_eq, anyDouble_eq]
+      cases hb : (a :: b :: rest).any Atom.isBool with
+      | true => simp
       | false =>
-        simp only [Bool.false_eq_true, if_false]
-        cases hs : l.any Atom.isStr with
-        | true => simp
-        | false => simp [toD_eq_numVal l hb hs, sumD_eq]
+        simp only [Bool.false_eq_true, if_false, Bool.not_false, Bool.true_and]
+        cases hd : (a :: b :: rest).all (fun a => a.isInt || a.isDec) with
+        | true =>
+          obtain ⟨_, hs, _⟩ := intdec_props _ hd
+          simp only [if_true, hs, Bool.not_false, Bool.not_true, Bool.false_eq_true, if_false,
+            no_double _ hd, sumExact_eq _ hd]
+        | false =>
+          simp only [Bool.false_eq_true, if_false]
+          cases hs : (a :: b :: rest).any Atom.isStr with
+          | true => simp
+          | false =>
+            have hdbl := has_double _ ho hb hs hd
+            simp only [hdbl, Bool.not_false, Bool.not_true, Bool.false_eq_true, if_false, if_true, pySum, map_toD]
+            cases hn : (a :: b :: rest).any Atom.isNaN with
+            | true =>
+              simp only [if_true]
+              rw [neumaierSum_has_nan _ (any_isNaN_mem _ hn)]
+            | false => simp
+
+/-! ### avg -/
+
+theorem fnAvg_eq (s : Seq) : fnAvg s = Spec.fnAvg pySum s := by
+  unfold fnAvg Spec.fnAvg
+  rw [outside_eq]
+  cases ho : outsideAgg s with
+  | true => simp
+  | false =>
+    simp only [Bool.false_eq_true, if_false]
+    match s, ho with
+    | [], _ => simp
+    | a :: rest, ho =>
+      simp only [List.isEmpty_cons, Bool.false_eq_true, if_false]
+      rw [allKind_num _ ho, allInt_eq, anyDouble_eq, count_eq_length]
+      cases hb : (a :: rest).any Atom.isBool with
+      | true => simp
+      | false =>
+        simp only [Bool.false_eq_true, if_false, Bool.not_false, Bool.true_and]
+        cases hi : (a :: rest).all Atom.isInt with
+        | true =>
+          have hd : (a :: rest).all (fun a => a.isInt || a.isDec) = true := by
+            rw [List.all_eq_true] at hi ⊢
+            intro x hx; simp [hi x hx]
+          obtain ⟨_, hs, _⟩ := intdec_props _ hd
+          have hsc : (exactSum (a :: rest)).2 = 0 := exactSum_ints_scale _ hi (0, 0) rfl
+          simp only [if_true, hs, Bool.not_false, Bool.not_true, Bool.false_eq_true, if_false,
+            no_double _ hd, sumExact_eq _ hd, hsc, Nat.pow_zero, Nat.one_mul, true_and]
+        | false =>
+          simp only [Bool.false_eq_true, if_false]
+          cases hd : (a :: rest).all (fun a => a.isInt || a.isDec) with
+          | true =>
+            obtain ⟨_, hs, _⟩ := intdec_props _ hd
+            simp only [if_true, hs, Bool.not_false, Bool.not_true, Bool.false_eq_true, if_false,
+              no_double _ hd, sumExact_eq _ hd, false_and]
+          | false =>
+            simp only [Bool.false_eq_true, if_false]
+            cases hs : (a :: rest).any Atom.isStr with
+            | true => simp
+            | false =>
+              have hdbl := has_double _ ho hb hs hd
+              simp only [hdbl, Bool.not_false, Bool.not_true, Bool.false_eq_true, if_false, if_true, pySum]
 
 /-! ### min / max -/
 
@@ -173,92 +304,91 @@ theorem pyExtremum_eq {β : Type} (lt : β → β → Bool) (isMax : Bool) (xs :
     simp only [pyExtremum, extremum]
     by_cases h : (if isMax then lt b x else lt x b) = true <;> simp [h, ih]
 
-theorem strLt_eq : strLt = fun x y => decide (strLtSpec x y) := rfl
-theorem dlt_eq : D.lt = fun x y => decide (ltD x y) := by funext x y; exact lt_decide x y
+theorem strs_of_allStr (l : Seq) (h : l.all Atom.isStr = true) : l.filterMap Atom.str? = l.map stringOfKey := by
+  induction l with
+  | nil => rfl
+  | cons a l ih =>
+    simp only [List.all_cons, Bool.and_eq_true] at h
+    cases a <;> simp_all [Atom.isStr, Atom.str?, stringOfKey]
 
-theorem str_filter_eq (l : Seq) :
-    l.filterMap (fun | .str u => some u | _ => none) = l.filterMap Atom.str? := by
-  rfl
-theorem bool_filter_eq (l : Seq) :
-    l.filterMap (fun | .bool u => some u | _ => none) = l.filterMap Atom.bool? := by
-  rfl
-theorem int_filter_eq (l : Seq) :
-    l.filterMap (fun | .int u => some u | _ => none) = l.filterMap Atom.int? := by
-  rfl
-
-theorem any_nan_eq (l : Seq) : l.any Atom.isNaN = l.any (· == Atom.dbl .nan) := by
-  congr 1; funext a
-  cases a with
-  | dbl d => cases d <;> simp [Atom.isNaN]
-  | _ => simp [Atom.isNaN]
+theorem bools_of_allBool (l : Seq) (h : l.all Atom.isBool = true) :
+    l.filterMap Atom.bool? = l.map (· == Atom.bool true) := by
+  induction l with
+  | nil => rfl
+  | cons a l ih =>
+    simp only [List.all_cons, Bool.and_eq_true] at h
+    cases a <;> simp_all [Atom.isBool, Atom.bool?]
 
 theorem bool_better (isMax : Bool) :
     (fun (x best : Bool) => if isMax then (!best && x) else (best && !x)) =
     (fun x best => if isMax then (fun a b : Bool => !a && b) best x else (fun a b : Bool => !a && b) x best) := by
   funext x best; cases isMax <;> cases x <;> cases best <;> rfl
 
+theorem xvlt_better (isMax : Bool) :
+    (fun (x best : Atom) => if isMax then XV.lt best.xv x.xv else XV.lt x.xv best.xv) =
+    (fun x best => if isMax then (fun a b : Atom => XV.lt (exact a) (exact b)) best x
+                   else (fun a b : Atom => XV.lt (exact a) (exact b)) x best) := by
+  funext x best; simp only [xv_eq]
+
+theorem strLt_eq : strLt = fun x y => decide (strLtSpec x y) := rfl
+
+theorem any_str_not_all_bool (l : Seq) (h : l.any Atom.isStr = true) : l.all Atom.isBool = false := by
+  rw [List.all_eq_false]
+  obtain ⟨x, hx, hxs⟩ := List.any_eq_true.mp h
+  exact ⟨x, hx, by cases x <;> simp_all [Atom.isStr, Atom.isBool]⟩
+
 theorem fnMinMax_eq (isMax : Bool) (s : Seq) : fnMinMax isMax s = Spec.fnMinMax isMax s := by
   cases s with
-  | nil => rfl
+  | nil => simp [fnMinMax, Spec.fnMinMax, outsideAgg]
   | cons a rest =>
     simp only [fnMinMax, Spec.fnMinMax]
-    rw [allKind_str, allKind_bool, allKind_num, allInt_eq, ← any_nan_eq]
-    cases hS : (a :: rest).all Atom.isStr with
-    | true =>
-      simp only [if_true]
-      have ha : a.isStr = true := by simp [List.all_cons] at hS; exact hS.1
-      cases a with
-      | str t =>
-        simp only [List.filterMap_cons, Atom.str?, str_filter_eq, strLt_eq]
-        rw [pyExtremum_eq (fun x y => decide (strLtSpec x y))]
-        rfl
-      | _ => simp [Atom.isStr] at ha
+    rw [outside_eq]
+    cases ho : outsideAgg (a :: rest) with
+    | true => simp
     | false =>
       simp only [Bool.false_eq_true, if_false]
-      cases hs : (a :: rest).any Atom.isStr with
+      rw [allKind_str _ ho, allKind_bool, allKind_num _ ho, anyDouble_eq, ← any_nan_eq]
+      cases hS : (a :: rest).all Atom.isStr with
       | true =>
-        have hB : (a :: rest).all Atom.isBool = false := by
-          rw [List.all_eq_false]
-          obtain ⟨x, hx, hxs⟩ := List.any_eq_true.mp hs
-          exact ⟨x, hx, by cases x <;> simp_all [Atom.isStr, Atom.isBool]⟩
-        simp [hB]
+        simp only [if_true]
+        have hfm := strs_of_allStr _ hS
+        simp only [List.map_cons] at hfm
+        rw [hfm]
+        exact congrArg (fun m => Except.ok [Atom.str m]) (pyExtremum_eq (fun x y => decide (strLtSpec x y)) isMax _ _)
       | false =>
         simp only [Bool.false_eq_true, if_false]
-        cases hB : (a :: rest).all Atom.isBool with
-        | true =>
-          simp only [if_true]
-          have ha : a.isBool = true := by simp [List.all_cons] at hB; exact hB.1
-          cases a with
-          | bool b =>
-            simp only [List.filterMap_cons, Atom.bool?, bool_filter_eq]
-            rw [bool_better, pyExtremum_eq (fun a b : Bool => !a && b)]
-            rfl
-          | _ => simp [Atom.isBool] at ha
+        cases hs : (a :: rest).any Atom.isStr with
+        | true => simp [any_str_not_all_bool _ hs]
         | false =>
           simp only [Bool.false_eq_true, if_false]
-          cases hb : (a :: rest).any Atom.isBool with
-          | true => simp
+          cases hB : (a :: rest).all Atom.isBool with
+          | true =>
+            simp only [if_true]
+            have hfm := bools_of_allBool _ hB
+            simp only [List.map_cons] at hfm
+            rw [hfm, bool_better]
+            exact congrArg (fun m => Except.ok [Atom.bool m]) (pyExtremum_eq (fun a b : Bool => !a && b) isMax _ _)
           | false =>
-            simp only [Bool.false_eq_true, if_false, Bool.not_false, Bool.and_self, if_true]
-            cases hI : (a :: rest).all Atom.isInt with
-            | true =>
-              simp only [if_true]
-              have ha : a.isInt = true := by simp [List.all_cons] at hI; exact hI.1
-              cases a with
-              | int n =>
-                simp only [List.filterMap_cons, Atom.int?, int_filter_eq]
-                rw [pyExtremum_eq (fun x y : Int => decide (x < y))]
-                rfl
-              | _ => simp [Atom.isInt] at ha
+            simp only [Bool.false_eq_true, if_false]
+            cases hb : (a :: rest).any Atom.isBool with
+            | true => simp
             | false =>
-              simp only [Bool.false_eq_true, if_false]
-              cases hn : (a :: rest).any Atom.isNaN with
-              | true => simp
+              simp only [Bool.false_eq_true, if_false, Bool.not_false, Bool.and_self, if_true]
+              cases hd : (a :: rest).all (fun a => a.isInt || a.isDec) with
+              | true =>
+                simp only [if_true, no_double _ hd, Bool.false_eq_true, if_false]
+                rw [xvlt_better]
+                exact congrArg (fun m => Except.ok [m]) (pyExtremum_eq (fun a b : Atom => XV.lt (exact a) (exact b)) isMax _ _)
               | false =>
-                simp only [Bool.false_eq_true, if_false]
-                rw [toD_eq_numVal _ hb hs, List.map_cons, dlt_eq]
-                simp only []
-                rw [pyExtremum_eq (fun x y => decide (ltD x y))]
+                have hdbl := has_double _ ho hb hs hd
+                simp only [Bool.false_eq_true, if_false, hdbl, if_true]
+                cases hn : (a :: rest).any Atom.isNaN with
+                | true => simp
+                | false =>
+                  simp only [Bool.false_eq_true, if_false]
+                  rw [xvlt_better, toD_eq]
+                  exact congrArg (fun m => Except.ok [Atom.dbl (toDouble m)])
+                    (pyExtremum_eq (fun a b : Atom => XV.lt (exact a) (exact b)) isMax _ _)
 
 /-! ### value comparison -/
 
@@ -268,17 +398,6 @@ theorem codes_inj (s t : String) : s.toList.map Char.toNat = t.toList.map Char.t
     apply String.ext
     exact (List.map_inj_right (fun x y hxy => Char.toNat_inj.mp hxy)).mp h
   · intro h; rw [h]
-
-theorem dec_or (p q : Prop) [Decidable p] [Decidable q] [Decidable (p ∨ q)] :
-    decide (p ∨ q) = (decide p || decide q) := by
-  by_cases hp : p <;> by_cases hq : q <;> simp [hp, hq]
-
-theorem leD_decide (x y : D) : decide (leD x y) = (decide (ltD x y) || decide (eqD x y)) := by
-  unfold leD
-  exact dec_or _ _
-
-theorem eqD_decide_symm (x y : D) : decide (eqD x y) = decide (eqD y x) :=
-  decide_eq_decide.mpr ⟨eqD_symm, eqD_symm⟩
 
 theorem str_le (s t : String) : (!strLt t s) = (decide (strLtSpec s t) || (s == t)) := by
   have h := List.le_iff_lt_or_eq (l₁ := s.toList.map Char.toNat) (l₂ := t.toList.map Char.toNat)
@@ -299,28 +418,75 @@ theorem str_le (s t : String) : (!strLt t s) = (decide (strLtSpec s t) || (s == 
         · exact h2 h3
       simp [h1, h2, this]
 
+theorem str_ge (s t : String) : (!strLt s t) = (decide (strLtSpec t s) || (s == t)) := by
+  rw [str_le t s, beq_symm' t s]
+
 theorem cmpAtoms_eq (op : Cmp) (a b : Atom) : cmpAtoms op a b = compareAtoms op a b := by
-  cases a <;> cases b <;>
-    simp only [cmpAtoms, compareAtoms, eqAtom?, ltAtom?, kind, numVal, Atom.toD?, D.ofInt, and_self,
-      if_true, reduceCtorEq, and_false, false_and, if_false]
-  case bool.bool x y => cases op <;> cases x <;> cases y <;> rfl
-  case str.str s t =>
-    cases op <;> simp only [Except.ok.injEq]
-    · rfl
-    · rfl
-    · exact str_le s t
-    · rfl
-    · rw [str_le t s]
-      congr 1
-      exact decide_eq_decide.mpr ⟨Eq.symm, Eq.symm⟩
-  all_goals
-    cases op <;> simp only [Except.ok.injEq, eqv_decide, lt_decide, le_decide, leD_decide]
-    · exact decide_eq_decide.mpr Iff.rfl
-    · exact congrArg _ (decide_eq_decide.mpr Iff.rfl)
-    · exact decide_eq_decide.mpr Iff.rfl
-    · exact congr (congrArg _ (decide_eq_decide.mpr Iff.rfl)) (decide_eq_decide.mpr Iff.rfl)
-    · exact decide_eq_decide.mpr Iff.rfl
-    · exact congr (congrArg _ (decide_eq_decide.mpr Iff.rfl)) (eqD_decide_symm _ _)
+  cases a <;> cases b <;> cases op <;>
+    simp only [cmpAtoms, compareAtoms, cmpKey, eqAtom?, ltAtom?, kind, stringOfKey, Atom.isNumeric,
+      Bool.and_self, Bool.and_false, Bool.false_and, if_true, if_false, Bool.false_eq_true,
+      numEqP_eq, numLtP_eq, str_le, str_ge, bne, atom_bool_beq]
+  all_goals first
+    | rfl
+    | exact congrArg Except.ok (congrArg (fun z => _ || z) (beq_symm' _ _))
+    | (rename_i x y; cases x <;> cases y <;> rfl)
+
+/-! ### arithmetic, rounding, arguments -/
+
+theorem arithAtoms_eq (op : Arith) (x y : Atom) (hx : kind x = .num) (hy : kind y = .num) :
+    arithAtoms op x y = .ok (arith op x y) := by
+  cases x <;> cases y <;> simp [kind] at hx hy <;> cases op <;>
+    simp [arithAtoms, arith, Atom.decParts?, Atom.isNumeric, isDouble, decOf, decAdd, decNeg, decMul, toD_eq]
+
+theorem quant_floor (m : Int) (p : Nat) (hp0 : 0 < p) :
+    (if m > 0 then Int.ofNat (quantHalfUp m.natAbs p) else -(Int.ofNat (quantHalfDown m.natAbs p)))
+      = Int.fdiv (2 * m + (p : Int)) (2 * (p : Int)) := by
+  rw [Int.fdiv_eq_ediv_of_nonneg _ (by omega)]
+  have hdm := Nat.div_add_mod m.natAbs p
+  have hlt := Nat.mod_lt m.natAbs hp0
+  by_cases hm : m > 0
+  · simp only [hm, if_true]
+    unfold quantHalfUp
+    have hm' : m = (p : Int) * ((m.natAbs / p : Nat) : Int) + ((m.natAbs % p : Nat) : Int) := by
+      have : (m.natAbs : Int) = m := by omega
+      rw [← this]; exact_mod_cast hdm.symm
+    generalize m.natAbs / p = q at *
+    generalize m.natAbs % p = r at *
+    rw [hm']
+    split
+    · rw [floor_of_decomp _ (2 * (p : Int)) ((q : Int) + 1) (2 * r - p) (by omega) (by grind) (by omega) (by omega)]
+      simp
+    · rw [floor_of_decomp _ (2 * (p : Int)) (q : Int) (2 * r + p) (by omega) (by grind) (by omega) (by omega)]
+      rfl
+  · simp only [hm, if_false]
+    unfold quantHalfDown
+    have hm' : m = -((p : Int) * ((m.natAbs / p : Nat) : Int) + ((m.natAbs % p : Nat) : Int)) := by
+      have : (m.natAbs : Int) = -m := by omega
+      have h3 : ((p * (m.natAbs / p) + m.natAbs % p : Nat) : Int) = (m.natAbs : Int) := by exact_mod_cast hdm
+      push_cast at h3
+      omega
+    generalize m.natAbs / p = q at *
+    generalize m.natAbs % p = r at *
+    rw [hm']
+    split
+    · rw [floor_of_decomp _ (2 * (p : Int)) (-(q : Int) - 1) (3 * p - 2 * r) (by omega) (by grind) (by omega) (by omega)]
+      simp only [Int.ofNat_eq_natCast]; push_cast; omega
+    · rw [floor_of_decomp _ (2 * (p : Int)) (-(q : Int)) (p - 2 * r) (by omega) (by grind) (by omega) (by omega)]
+      rfl
+
+theorem fnRound_eq (s : Seq) : fnRound s = Spec.fnRound s := by
+  match s with
+  | [] => rfl
+  | [a] =>
+    cases a with
+    | dec m k =>
+      simp only [fnRound, Spec.fnRound]
+      have := quant_floor m (10 ^ k) (Nat.pow_pos (by decide))
+      rw [this]
+      simp
+    | dbl d => simp [fnRound, Spec.fnRound, roundNumber_eq]
+    | _ => rfl
+  | _ :: _ :: _ => simp [fnRound, Spec.fnRound]
 
 theorem singleton_eq (s : Seq) : singleton? s = atMostOne s := by
   match s with
@@ -337,29 +503,13 @@ theorem rangeOperand_eq (s : Seq) : rangeOperand s = atMostInt s := by
 theorem arithOperand_eq (s : Seq) : arithOperand s = numericOperand s := by
   match s with
   | [] => rfl
-  | [a] => cases a <;> simp [arithOperand, numericOperand, Atom.isNumeric, kind]
+  | [a] => cases a <;> simp [arithOperand, numericOperand, Atom.isNumeric, Atom.isUntyped, Atom.isNode, kind]
   | _ :: _ :: _ => rfl
-
-theorem arithAtoms_eq (op : Arith) (x y : Atom) (hx : kind x = .num) (hy : kind y = .num) :
-    arithAtoms op x y = .ok (arith op x y) := by
-  have hadd : D.add = addD := by funext a b; exact D.add_eq a b
-  cases x <;> cases y <;> simp_all [kind, arithAtoms, arith, Atom.isNumeric, Atom.toD?, numVal, D.ofInt, mulD] <;>
-    cases op <;> rfl
 
 theorem predicateKeeps_eq (pos : Nat) (v : Seq) : predicateKeeps pos v = predicateTruth pos v := by
   match v with
   | [] => simp [predicateKeeps, predicateTruth, ebv_eq]
-  | [a] =>
-    cases a with
-    | int n =>
-      simp only [predicateKeeps, predicateTruth, Except.ok.injEq]
-      apply decide_eq_decide.mpr
-      simp [eqD, ofPos]
-    | dbl d =>
-      simp only [predicateKeeps, predicateTruth, Except.ok.injEq, eqv_decide]
-      exact decide_eq_decide.mpr Iff.rfl
-    | str t => simp [predicateKeeps, predicateTruth, ebv_eq]
-    | bool b => simp [predicateKeeps, predicateTruth, ebv_eq]
+  | [a] => cases a <;> simp [predicateKeeps, predicateTruth, ebv_eq, Atom.isNumeric, kind, xv_eq]
   | _ :: _ :: _ => simp [predicateKeeps, predicateTruth, ebv_eq]
 
 theorem intArg_eq (s : Seq) : intArg s = asInteger s := by
@@ -368,42 +518,37 @@ theorem intArg_eq (s : Seq) : intArg s = asInteger s := by
   | [a] => cases a <;> rfl
   | _ :: _ :: _ => rfl
 
-theorem dblArg_eq (s : Seq) : dblArg s = asDouble s := by
+theorem posArg_eq (s : Seq) : posArg s = asRoundedDouble s := by
   match s with
   | [] => rfl
-  | [a] => cases a <;> rfl
-  | _ :: _ :: _ => rfl
-
-theorem fnRound_eq (s : Seq) : fnRound s = Spec.fnRound s := by
-  match s with
-  | [] => rfl
-  | [a] => cases a <;> simp [fnRound, Spec.fnRound, roundNumber_eq]
-  | _ :: _ :: _ => simp [fnRound, Spec.fnRound]
-
-theorem avgToSeq_eq (r : AvgRes) : avgToSeq r = Spec.avgToSeq r := by
-  cases r <;> rfl
+  | [a] => cases a <;> simp [posArg, asRoundedDouble, roundD_ofInt, roundNumber_eq]
+  | _ :: _ :: _ => simp [posArg, asRoundedDouble]
 
 /-! ### the function tables -/
 
-theorem applyFn1_eq (f : Fn1) (v : Seq) : applyFn1 f v = Spec.applyFn1 f v := by
+theorem map_atomize (doc : List String) (v : Seq) : v.map (atomize doc) = v.map (atomized doc) := by
+  congr 1
+
+theorem applyFn1_eq (doc : List String) (f : Fn1) (v : Seq) :
+    applyFn1 doc f v = Spec.applyFn1 pySum doc f v := by
   cases f <;> simp only [applyFn1, Spec.applyFn1, count_eq_length, Spec.count, isEmpty_eq, isExists_eq,
     head_eq, tail_eq, reverse_eq, Spec.reverse, zeroOrOne_eq, oneOrMore_eq, exactlyOne_eq, fnSum_eq,
-    fnAvg_eq, fnMinMax_eq, distinctValues_eq, fnStringJoin_eq, ebv_eq, fnRound_eq]
-  case avg => cases Spec.fnAvg v <;> simp [bind, Except.bind, avgToSeq_eq]
+    fnAvg_eq, fnMinMax_eq, distinctValues_eq, fnStringJoin_eq, ebv_eq, fnRound_eq, map_atomize]
   case not_ => cases Spec.ebv v <;> rfl
   case boolean => cases Spec.ebv v <;> rfl
 
-theorem applyFn2_eq (f : Fn2) (va vb : Seq) : applyFn2 f va vb = Spec.applyFn2 f va vb := by
-  cases f <;> simp only [applyFn2, Spec.applyFn2, intArg_eq, dblArg_eq, fnStringJoin_eq, fnSum_eq]
+theorem applyFn2_eq (doc : List String) (f : Fn2) (va vb : Seq) :
+    applyFn2 doc f va vb = Spec.applyFn2 pySum doc f va vb := by
+  cases f <;> simp only [applyFn2, Spec.applyFn2, intArg_eq, posArg_eq, fnStringJoin_eq, fnSum_eq]
   case remove => cases asInteger vb <;> simp [bind, Except.bind, Except.map, pure, Except.pure, remove_eq]
-  case indexOf => split <;> simp_all [indexOf_eq]
-  case subseq => cases asDouble vb <;> simp [bind, Except.bind, Except.map, pure, Except.pure, subsequence2_eq]
+  case indexOf => split <;> simp_all [indexOf_eq, map_atomize, atomize_eq]
+  case subseq => cases asRoundedDouble vb <;> simp [bind, Except.bind, Except.map, pure, Except.pure, subsequence2R_eq]
 
 theorem applyFn3_eq (f : Fn3) (va vb vc : Seq) : applyFn3 f va vb vc = Spec.applyFn3 f va vb vc := by
-  cases f <;> simp only [applyFn3, Spec.applyFn3, intArg_eq, dblArg_eq]
+  cases f <;> simp only [applyFn3, Spec.applyFn3, intArg_eq, posArg_eq]
   case insertBefore => cases asInteger vb <;> simp [bind, Except.bind, Except.map, pure, Except.pure, insertBefore_eq]
   case subseq =>
-    cases asDouble vb <;> cases asDouble vc <;>
-      simp [bind, Except.bind, Except.map, pure, Except.pure, subsequence3_eq]
+    cases asRoundedDouble vb <;> cases asRoundedDouble vc <;>
+      simp [bind, Except.bind, Except.map, pure, Except.pure, subsequence3R_eq]
 
 end EPV.Seq
